@@ -3,13 +3,13 @@ CONSTANTS
   MaxOps = 3
   OpKinds = {"tip", "add", "int", "tick"}
   TickAmounts = {1, 1201}
-  Timeouts = {0, 2, 1000000}
-  Thresholds = {0, 1000, 999999999}
+  Timeouts = {2, 1000000}
+  Thresholds = {1000, 999999999}
   Ages = {0, 1300}
   PrevFees = 700
   AddFee = 1000
   Strict = TRUE
-  Calls = 2
+  Calls = 1
   FinalInterrupt = FALSE
   AllowInvalidate = FALSE
 INVARIANTS TypeOK ParentIsCurrentTip NeverOlderThanTrigger SameTipNeedsFees NullOnlyAfterTimeoutOrInterrupt 
